@@ -362,7 +362,7 @@ func runPool(m *model.Model, s *ob.Set) {
 		s.Check(rel, R, "dec.divRecursive/temps", m.Pos(fn.Pos()), "releases the temporaries collected by divRecursiveStep", "divRecursive no longer releases the temps slice")
 	}
 	if nsites < 2 {
-		model.Fatal("POOL: only %d getDec sites found", nsites)
+		model.Blind("POOL: only %d getDec sites found", nsites)
 	}
 }
 
@@ -906,6 +906,10 @@ func runCmpSym(m *model.Model, s *ob.Set) {
 			}
 			ok := expB != nil && wordB != nil && expB != wordB && m.Dominates(expB, wordB)
 			s.Check(ok, R, n+"/exponent-first", m.Pos(fn.Pos()), "the exponent comparison dominates the mantissa comparison", "ucmp must decide on the exponents before it looks at mantissa words")
+			// "equal" may be answered only when BOTH mantissas are exhausted: the loop conditions that
+			// dominate the final `return 0` must depend on len(x.mant) and on len(y.mant) (a loop
+			// over one operand's words misses the non-zero low words the longer other operand has)
+			cmpBothExhausted(m, s, fn)
 		}
 	}
 }
@@ -1007,7 +1011,7 @@ func runMustFlow(m *model.Model, s *ob.Set) {
 		}
 	}
 	if n < 3 {
-		model.Fatal("MUSTFLOW: only %d dnorm call sites found", n)
+		model.Blind("MUSTFLOW: only %d dnorm call sites found", n)
 	}
 	// SetBitsExp: stripped words
 	{
@@ -1181,6 +1185,85 @@ func runModeOrder(m *model.Model, s *ob.Set) {
 		}
 	}
 	if n < 2 {
-		model.Fatal("MODE: only %d functions writing a rounding mode found", n)
+		model.Blind("MODE: only %d functions writing a rounding mode found", n)
 	}
+}
+
+func cmpBothExhausted(m *model.Model, s *ob.Set, fn *ssa.Function) {
+	const R = "CMPSYM"
+	live := m.Live(fn)
+	// the `return 0` that is not dominated by ... any: take every return of the constant 0
+	var lens [2][]ssa.Value
+	for _, b := range fn.Blocks {
+		for _, in := range b.Instrs {
+			c, ok := in.(*ssa.Call)
+			if !ok || model.BuiltinName(&c.Call) != "len" {
+				continue
+			}
+			if lf, ok := m.LoadOfDecField(stripConv(c.Call.Args[0])); ok && lf.Field == m.F.Mant {
+				for k := 0; k < 2 && k < len(fn.Params); k++ {
+					if m.RefOf(lf.X).OnlyParam(k) {
+						lens[k] = append(lens[k], c)
+					}
+				}
+			}
+		}
+	}
+	checked, bad := 0, ""
+	for _, e := range fn.Blocks {
+		if !live[e.Index] {
+			continue
+		}
+		r, ok := e.Instrs[len(e.Instrs)-1].(*ssa.Return)
+		if !ok || len(r.Results) != 1 {
+			continue
+		}
+		isZero := false
+		if k, ok := model.ConstInt(r.Results[0]); ok && k == 0 {
+			isZero = true
+		}
+		if ph, ok := r.Results[0].(*ssa.Phi); ok {
+			for _, ed := range ph.Edges {
+				if k, ok := model.ConstInt(ed); ok && k == 0 {
+					isZero = true
+				}
+			}
+		}
+		if !isZero {
+			continue
+		}
+		// loop conditions dominating this exit
+		var conds []ssa.Value
+		for _, b := range fn.Blocks {
+			if !live[b.Index] || b == e || !m.Dominates(b, e) || !blockReaches(b, b) {
+				continue
+			}
+			if ifi, ok := b.Instrs[len(b.Instrs)-1].(*ssa.If); ok {
+				conds = append(conds, ifi.Cond)
+			}
+		}
+		if len(conds) == 0 {
+			continue // not the mantissa comparison's exit
+		}
+		checked++
+		for k := 0; k < 2; k++ {
+			dep := false
+			for _, c := range conds {
+				for _, l := range lens[k] {
+					if flowsInto(m, l, c, 10, map[ssa.Value]bool{}) {
+						dep = true
+					}
+				}
+			}
+			if !dep {
+				bad = fmt.Sprintf("%s: the loop that ends in `return 0` does not depend on the length of %s's mantissa: words the other operand lacks are taken for equal without being looked at", m.InstrPos(r), fn.Params[k].Name())
+			}
+		}
+	}
+	c := m.FuncName(fn) + "/both-exhausted"
+	if checked == 0 {
+		s.Note(R, c, m.Pos(fn.Pos()), "no loop-guarded `return 0` found (mantissa comparison written without a loop; not decided)")
+		return
+	}
+	s.Check(bad == "", R, c, m.Pos(fn.Pos()), "the `equal` exit is guarded by loop conditions over both mantissa lengths", bad)
 }
